@@ -29,6 +29,34 @@ def random_resizes(ctx, n):
     return cases
 
 
+def boundaries():
+    """Extents and chunk counts across 255/256 and 65535/65536, element types of 1, 2 and 8 bytes, a dimension of extent 1, a Resize
+    to the current shape, exactly to the maximum, and two resizable datasets resized and rewritten in turn in one session."""
+    cases = []
+
+    def add(ops, sb):
+        cases.append({"cfg": {"sb": sb, "rb": "", "style": 0, "tag": "C13-boundaries"}, "ops": ops})
+    for dt in ("u8", "i16", "i32", "f64"):
+        for sb in (2, 0, 3):
+            mk = {"op": "mkds", "p": "/d", "dt": dt, "dims": [250], "chunk": [1], "max": [-1]}
+            add([mk, {"op": "write", "p": "/d", "data": "seq"}, {"op": "resize", "p": "/d", "dims": [257]}, {"op": "resize", "p": "/d", "dims": [255]},
+                 {"op": "resize", "p": "/d", "dims": [256]}, {"op": "write", "p": "/d", "data": "neg"}, {"op": "resize", "p": "/d", "dims": [256]},
+                 {"op": "resize", "p": "/d", "dims": [1]}], sb)
+        mk = {"op": "mkds", "p": "/d", "dt": dt, "dims": [65535], "chunk": [4096], "max": [65537]}
+        add([mk, {"op": "write", "p": "/d", "data": "rnd"}, {"op": "resize", "p": "/d", "dims": [65537]}, {"op": "resize", "p": "/d", "dims": [65538]},
+             {"op": "resize", "p": "/d", "dims": [65536]}, {"op": "write", "p": "/d", "data": "rnd"}, {"op": "resize", "p": "/d", "dims": [4096]},
+             {"op": "resize", "p": "/d", "dims": [4097]}], 2)
+        mk = {"op": "mkds", "p": "/d", "dt": dt, "dims": [1, 5, 1], "chunk": [1, 2, 1], "max": [3, -1, 1]}
+        add([mk, {"op": "write", "p": "/d", "data": "seq"}, {"op": "resize", "p": "/d", "dims": [1, 7, 1]}, {"op": "resize", "p": "/d", "dims": [3, 7, 1]},
+             {"op": "write", "p": "/d", "data": "neg"}, {"op": "resize", "p": "/d", "dims": [3, 7, 2]}, {"op": "resize", "p": "/d", "dims": [2, 3, 1]}], 3)
+        a = {"op": "mkds", "p": "/a", "dt": dt, "dims": [4], "chunk": [2], "max": [-1]}
+        b = {"op": "mkds", "p": "/b", "dt": "i32", "dims": [3, 3], "chunk": [2, 2], "max": [6, 6]}
+        add([a, b, {"op": "write", "p": "/a", "data": "seq"}, {"op": "write", "p": "/b", "data": "seq"}, {"op": "resize", "p": "/a", "dims": [7]},
+             {"op": "resize", "p": "/b", "dims": [5, 2]}, {"op": "write", "p": "/a", "data": "neg"}, {"op": "resize", "p": "/b", "dims": [6, 6]},
+             {"op": "resize", "p": "/a", "dims": [3]}, {"op": "write", "p": "/b", "data": "neg"}, {"op": "resize", "p": "/b", "dims": [7, 6]}], 2)
+    return cases
+
+
 def run(ctx):
     thorough = ctx.tier == "thorough"
     models = [("C13Model.tla", "C13_r1.cfg" if thorough else "C13_r1q.cfg"), ("C13Model.tla", "C13_r2.cfg"),
@@ -43,7 +71,7 @@ def run(ctx):
         raise H.Infra("ChunkResize with CODE_NoPrune no longer yields a counterexample")
     return run_logical(
         ctx, LEVEL, models,
-        extra_cases=random_resizes(ctx, 2000 if thorough else 300),
+        extra_cases=random_resizes(ctx, 2000 if thorough else 300) + boundaries(),
         nontrivial=lambda c: sum(1 for o in c["ops"] if o["op"] == "resize") >= 1 and any(o["op"] == "write" for o in c["ops"]),
         rule="cases = every sequence of <= Depth Resize/Write calls on one resizable dataset generated by TLC from H5Logical "
              "(rank 1 extents 1..7 chunk 1..3 fixed/unlimited max, rank 2, rank 3; beyond-max and wrong-rank requests included) "
